@@ -286,6 +286,10 @@ func tryGetRedumpKey(fsys afero.Fs, requestedPath string) ([]byte, error) {
 		return ReadKeyFile(keyFile)
 	}
 
+	if !errors.Is(err, afero.ErrFileNotFound) {
+		return nil, err // key file exists but can't be opened, REDKEY may contain a key for another image
+	}
+
 	// try .dkey in REDKEY directory (instead of PS3ISO)
 	pathElems[ps3IsoIdx] = redkeyDir
 	pathElems[len(pathElems)-1] = strings.TrimSuffix(pathElems[len(pathElems)-1], ext) + dkeyExt
